@@ -9,6 +9,7 @@ import (
 	"github.com/biogo/biogo/seq/linear"
 	"strings"
 	"unicode"
+	_ "verif/h/duoc"
 
 	"github.com/biogo/biogo/alphabet"
 	"github.com/biogo/biogo/feat"
